@@ -1208,7 +1208,9 @@ class Module(ABC):
             trainables_and_inds = self._filter_trainables(is_viewed=False)
             self.base.indices_set_by_trainables = trainables_and_inds[0]
             self.base.trainable_params = trainables_and_inds[1]
-            self.base.num_trainable_params -= self.num_trainable_params
+            self.base.num_trainable_params = int(
+                sum(len(inds) for inds in trainables_and_inds[0])
+            )
         else:
             self.base.indices_set_by_trainables = []
             self.base.trainable_params = []
@@ -2669,52 +2671,33 @@ class View(Module):
         Args:
             is_viewed: Toggles between returning the trainables and inds
                 currently inside or outside of the scope of View."""
-        índices_set_by_trainables_in_view = []
-        trainable_params_in_view = []
+        indices_set_by_trainables = []
+        trainable_params = []
         for inds, params in zip(
             self.base.indices_set_by_trainables, self.base.trainable_params
         ):
-            pkey, pval = next(iter(params.items()))
-            trainable_inds_in_view = None
-            if pkey in sum(
-                [list(c.channel_params.keys()) for c in self.base.channels], []
-            ):
-                trainable_inds_in_view = np.intersect1d(inds, self._nodes_in_view)
-            elif pkey in sum(
-                [list(s.synapse_params.keys()) for s in self.base.synapses], []
-            ):
-                trainable_inds_in_view = np.intersect1d(inds, self._edges_in_view)
+            pkey = next(iter(params.keys()))
+            # Parameters and states of synapses are indexed by edge, everything else
+            # (channel parameters and states, radius, length, v,...) by compartment.
+            is_edge_key = pkey in self.base.edges.columns
+            inds_in_view = self._edges_in_view if is_edge_key else self._nodes_in_view
 
-            in_view = is_viewed == np.isin(inds, trainable_inds_in_view)
-            completely_in_view = in_view.all(axis=1)
-            partially_in_view = in_view.any(axis=1) & ~completely_in_view
+            # Every row of `inds` is one group of indices that share a parameter.
+            # Entries of `-1` only pad groups of unequal size.
+            inds = np.asarray(inds)
+            keep = (inds >= 0) & (np.isin(inds, inds_in_view) == is_viewed)
+            kept_groups = keep.any(axis=1)
+            if not kept_groups.any():
+                continue
 
-            trainable_params_in_view.append(
-                {k: v[completely_in_view] for k, v in params.items()}
-            )
-            trainable_params_in_view.append(
-                {k: v[partially_in_view] for k, v in params.items()}
-            )
-
-            índices_set_by_trainables_in_view.append(inds[completely_in_view])
-            partial_inds = inds[partially_in_view][in_view[partially_in_view]]
-
-            # the indexing i.e. `inds[partially_in_view]` reshapes `inds`. Since the shape
-            # determines how parameters are shared, `inds` has to be returned to its
-            # original shape.
-            if inds.shape[0] > 1 and partial_inds.shape != (0,):
-                partial_inds = partial_inds.reshape(-1, 1)
-            if inds.shape[1] > 1 and partial_inds.shape != (0,):
-                partial_inds = partial_inds.reshape(1, -1)
-
-            índices_set_by_trainables_in_view.append(partial_inds)
-
-        indices_set_by_trainables = [
-            inds for inds in índices_set_by_trainables_in_view if len(inds) > 0
-        ]
-        trainable_params = [
-            p for p in trainable_params_in_view if len(next(iter(p.values()))) > 0
-        ]
+            groups = [inds[i][keep[i]] for i in np.where(kept_groups)[0]]
+            max_len = max(len(group) for group in groups)
+            groups = [
+                np.pad(group, (0, max_len - len(group)), constant_values=-1)
+                for group in groups
+            ]
+            indices_set_by_trainables.append(jnp.asarray(np.stack(groups)))
+            trainable_params.append({k: v[kept_groups] for k, v in params.items()})
         return indices_set_by_trainables, trainable_params
 
     def _set_trainables_in_view(self):
